@@ -1206,6 +1206,10 @@ func runC05(o Opts) {
 			switch in.Mode {
 			case "keys":
 				out.Emit(keysRecord(work))
+			case "backup":
+				out.Emit(backupRecord(work, in.MSeed))
+			case "long":
+				out.Emit(longRecord(work, int(in.MSeed)))
 			case "mode":
 				for _, r := range modeRecords(work) {
 					out.Emit(r)
@@ -1250,6 +1254,28 @@ func runC05(o Opts) {
 		idx++
 	}
 	out.Emit(keysRecord(work))
+	// the backup task (two schedules) and the long session
+	var bgSelf []Record
+	for k := uint64(0); k < 2; k++ {
+		br := backupRecord(work, o.Seed*10+k)
+		br.ID = out.n
+		out.Emit(br)
+		if k == 0 && br.Coq != "" {
+			bgSelf = append(bgSelf, br)
+		}
+	}
+	{
+		cycles := 700 // 2101 saves
+		if thorough {
+			cycles = 3000
+		}
+		lr := longRecord(work, cycles)
+		lr.ID = out.n
+		out.Emit(lr)
+		if lr.Coq != "" {
+			bgSelf = append(bgSelf, lr)
+		}
+	}
 	var selfSrc []Record
 	for _, r := range modeRecords(work) {
 		r.ID = out.n
@@ -1348,6 +1374,23 @@ func runC05(o Opts) {
 		alt2.Coq = strings.Replace(keySelf.Coq, "At AF None 1 0 0", "At AF (Some 0) 0 0 0", 1) // a foreign key let through
 		alt2.SelfTest, alt2.SelfOf, alt2.Obs = true, keySelf.ID, nil
 		out.Emit(alt2)
+	}
+	for _, r := range bgSelf {
+		alt := r
+		switch r.Kind {
+		case "backup": // a round in which the key service was asked once
+			alt.Coq = strings.Replace(r.Coq, " 0 1 true", " 1 1 true", 1)
+		case "long": // one key use somewhere along the 2101 saves
+			f := strings.Fields(r.Coq)
+			if len(f) > 3 {
+				f[3] = f[3] + "1"
+				alt.Coq = strings.Join(f, " ")
+			}
+		}
+		if alt.Coq != r.Coq {
+			alt.SelfTest, alt.SelfOf, alt.Obs = true, r.ID, nil
+			out.Emit(alt)
+		}
 	}
 	for _, r := range selfSrc {
 		alt := r
